@@ -99,6 +99,7 @@ func (fv *FuncVC) eval(e ast.Expr, st *State) Val {
 		return fv.evalComposite(x, st, false)
 	case *ast.StarExpr:
 		p := fv.eval(x.X, st)
+		fv.guardedPointee(st, x.X, p)
 		return fv.deref(p, fv.typeOf(x), st, fv.text(x))
 	case *ast.TypeAssertExpr:
 		v, ok := fv.typeAssert(x, st)
